@@ -12,7 +12,7 @@ def run(ctx):
         "of __setstate__ in the same order, with the cache reset; == and hash read only those fields (CMP tables); (SH4) "
         "for each cache entry the parsing constructor pre-fills, the lazy definition of that accessor is evaluated at the "
         "constructor's exit with the slots bound to what was stored, and must give the same term or an overlapping shape "
-        "over {None, empty, non-empty} x {None, 0, non-zero}. Not decided: value equality beyond that abstraction.")
+        "over {None, empty, non-empty} x {None, 0, non-zero}. (SH5) the authority helpers tell port 0 from an absent port. Not decided: value equality beyond that abstraction.")
     fields = pk1(ctx)
     table = cmp_rules(ctx)
     ctx.rule("PK1")
@@ -25,3 +25,9 @@ def run(ctx):
     from ..rules import immut
     immut.im11(ctx)     # a copy / derived URL never inherits cache entries computed for another URL
     immut.im13(ctx)     # nobody writes into the cache of a URL it did not create (shared, memoised objects)
+    # port 0 written by the parser's printer must be the port 0 the parser cached: a truthiness test in the authority helpers
+    # stores a netloc without ':0' next to a pre-filled explicit_port of 0
+    from ..rules import port
+    from .common import authority_function, claim_in
+    claim_in(ctx, ("SH5",), authority_function, "the functions that split and assemble the authority")
+    port.sh5(ctx)
